@@ -138,13 +138,14 @@ type corrGetter interface {
 
 // Client is a manager with its configurations and the recorder.
 type Client struct {
-	Cl      *Cluster
-	Mgr     *puppet.Manager
-	Opts    MgrOpts
-	IDs     []uint32       // node id per server index
-	srvOf   map[uint32]int // node id -> server index
-	Configs []*puppet.Configuration
-	CfgSrv  [][]int // servers of each configuration
+	Cl       *Cluster
+	Mgr      *puppet.Manager
+	Opts     MgrOpts
+	IDs      []uint32       // node id per server index
+	srvOf    map[uint32]int // node id -> server index
+	Configs  []*puppet.Configuration
+	CfgSrv   [][]int // servers of each configuration
+	CfgAlias []bool  // configuration i registers its servers under their alias ids (AddAliasConfig)
 
 	mu    sync.Mutex
 	calls map[uint64]*Call
@@ -361,6 +362,36 @@ func (c *Client) AddConfig(servers []int) (int, error) {
 	c.CfgSrv = append(c.CfgSrv, sv)
 	return len(c.Configs) - 1, nil
 }
+
+// AliasID is the second node id under which an alias configuration registers server i.
+func AliasID(i int) uint32 { return uint32(70001 + i) }
+
+// AddAliasConfig creates a configuration over the given servers in which every server is a
+// node of its own with another id (AliasID) than the one the manager knows it by already - one
+// address under two ids, each with its own connection. Returns the configuration's index.
+func (c *Client) AddAliasConfig(servers []int) (int, error) {
+	m := map[string]uint32{}
+	for _, s := range servers {
+		m[Addr(s)] = AliasID(s)
+		c.srvOf[AliasID(s)] = s
+	}
+	cfg, err := c.Mgr.NewConfiguration(&qspec{c}, gorums.WithNodeMap(m))
+	if err != nil {
+		return -1, err
+	}
+	sv := append([]int(nil), servers...)
+	sort.Ints(sv)
+	c.Configs = append(c.Configs, cfg)
+	c.CfgSrv = append(c.CfgSrv, sv)
+	for len(c.CfgAlias) < len(c.Configs)-1 {
+		c.CfgAlias = append(c.CfgAlias, false)
+	}
+	c.CfgAlias = append(c.CfgAlias, true)
+	return len(c.Configs) - 1, nil
+}
+
+// IsAlias: configuration i was made by AddAliasConfig.
+func (c *Client) IsAlias(i int) bool { return i < len(c.CfgAlias) && c.CfgAlias[i] }
 
 // ServerOf maps a node id to the server index (-1 if unknown).
 func (c *Client) ServerOf(id uint32) int {
